@@ -37,12 +37,20 @@ pub struct Cfg {
     /// 2 = a second object sent after the first, FDT listing only the objects being transferred
     #[serde(default)]
     pub second: u8,
+    /// Raptor/RaptorQ symbol alignment and number of sub-blocks (0 = default 1)
+    #[serde(default)]
+    pub al: u8,
+    #[serde(default)]
+    pub n: u16,
 }
 
 impl Cfg {
     pub fn rec_spec(&self) -> RecSpec {
         let mut o = ObjSpec::simple(self.len, 5);
-        o.oti = Some(OtiSpec::new(self.scheme, self.e, self.b, self.parity, self.inband_fti));
+        let mut oti = OtiSpec::new(self.scheme, self.e, self.b, self.parity, self.inband_fti);
+        oti.al = self.al.max(1);
+        oti.n = self.n.max(1);
+        o.oti = Some(oti);
         o.count = self.count;
         o.cenc = self.cenc;
         o.text = self.cenc != 0 && !self.incompressible;
@@ -254,7 +262,7 @@ fn run_corrupt_expect(p: &Prepared, seq: &[usize], c: &Corrupt, g: &mut G) -> Op
 }
 
 fn configs(thorough: bool) -> Vec<Cfg> {
-    let c = |scheme, e, b, parity, len, cenc, inband_fti, count, carousel, interleave| Cfg { scheme, e, b, parity, len, cenc, inband_fti, count, carousel, interleave, inband_cenc: inband_fti, md5: true, incompressible: false, sess_like: false, second: 0 };
+    let c = |scheme, e, b, parity, len, cenc, inband_fti, count, carousel, interleave| Cfg { scheme, e, b, parity, len, cenc, inband_fti, count, carousel, interleave, inband_cenc: inband_fti, md5: true, incompressible: false, sess_like: false, second: 0, al: 0, n: 0 };
     let mut v = vec![
         c(Scheme::NoCode, 4, 2, 0, 11, 0, true, 1, false, 1),
         c(Scheme::NoCode, 4, 2, 0, 11, 0, false, 1, false, 1),
@@ -318,6 +326,19 @@ fn configs(thorough: bool) -> Vec<Cfg> {
                     x.second = second;
                     v.push(x);
                 }
+            }
+        }
+    }
+    // RaptorQ / Raptor with sub-blocks (N) and alignment: the scheme-specific information reaches the
+    // receiver through EXT_FTI or through the FDT attribute; without MD5 nothing else protects the bytes
+    for (scheme, e, b, al, n, len) in [(Scheme::RaptorQ, 1400u16, 2u16, 4u8, 300u16, 2900usize), (Scheme::RaptorQ, 1400, 2, 4, 257, 1399), (Scheme::RaptorQ, 8, 2, 4, 2, 19), (Scheme::Raptor, 64, 4, 8, 8, 500)] {
+        for inband_fti in [false, true] {
+            for md5 in [false, true] {
+                let mut x = c(scheme, e, b, 1, len, 0, inband_fti, 1, false, 1);
+                x.md5 = md5;
+                x.al = al;
+                x.n = n;
+                v.push(x);
             }
         }
     }
